@@ -243,6 +243,21 @@ pub fn install_quiet_panic_hook() {
   }));
 }
 
+/// For fuzz targets: expected panics inside guarded builds stay quiet, but libFuzzer's abort-on-panic hook must still see
+/// panics that escape the target. libfuzzer-sys installs its hook before `init`, so chain to it only for escapes: the
+/// engine catches expected panics with catch_unwind, and a hook that aborts would kill the process on them. We therefore
+/// replace the hook by a quiet one and let the target turn a violation into an explicit abort.
+pub fn install_quiet_panic_hook_keep_abort() {
+  std::panic::set_hook(Box::new(move |info| {
+    let msg = if let Some(s) = info.payload().downcast_ref::<&str>() { s.to_string() } else if let Some(s) = info.payload().downcast_ref::<String>() { s.clone() } else { String::new() };
+    if msg.starts_with("PV-FUZZ-VIOLATION") {
+      eprintln!("{}", msg);
+      std::process::abort();
+    }
+    LAST_PANIC.with(|p| *p.borrow_mut() = Some(msg));
+  }));
+}
+
 pub fn take_last_panic() -> Option<String> { LAST_PANIC.with(|p| p.borrow_mut().take()) }
 
 pub fn panic_message(payload: &(dyn std::any::Any + Send)) -> String {
